@@ -28,6 +28,10 @@ def snap_account(a, with_obs=True):
     s = {"type": a.type, "total_cash": float(a._total_cash), "frozen": float(a._frozen_cash), "liab": float(a._cash_liabilities),
          "pending": [(d8(d), float(x)) for d, x in a._pending_deposit_withdraw], "mgmt_fees": float(a._management_fees),
          "mgmt_rate": float(a._management_fee_rate), "fin_rate": float(a._financing_rate), "holdings": hs}
+    try:
+        s["view"] = list(a.positions.keys())          # what `account.positions` / `context.portfolio.positions` (a cached proxy around the position table) lists
+    except Exception as ex:
+        s["view"] = "error: %r" % (ex,)
     if with_obs:
         s["obs"] = {"cash": float(a.cash), "margin": float(a.margin), "market_value": float(a.market_value), "total_value": float(a.total_value),
                     "position_equity": float(a.position_equity), "transaction_cost": float(a.transaction_cost), "trading_pnl": float(a.trading_pnl)}
